@@ -253,6 +253,60 @@ def nested_pairs():
     for o in kinds:
         src = "\n".join(_inst(o, "1", _inst(o, "2", _inst(o, "3", leaf)))) + "\nlog('end')\n"
         yield "C09:nest3:%s" % o, src
+    for d, src in same_name_programs():
+        yield d, src
+
+
+# ------------------------------------------------------------------------------------------------
+# helpers that belong to a SCOPE (closure-cell store, return holder, loop flags, class loader): two
+# scopes on one nesting chain that carry the SAME user name must still get distinct helpers (a
+# helper named after the user's function / class name is shared by both: seeded change c09f).
+# ------------------------------------------------------------------------------------------------
+SAME_LINKS = ("direct", "method", "mid")
+
+
+def _same_inner(name, write, retloop):
+    body = ["def %s(x2):" % name, "    t2 = b", "    def g2():", "        nonlocal t2"]
+    if write:
+        body += ["        nonlocal t1", "        t1 += 10"]
+    body += ["        t2 += x2", "        return t2 + t1"]
+    if retloop:
+        body += ["    for q2 in [1, 2, 3]:", "        if q2 == a:", "            return ('in', q2, g2())", "        log('i', q2)"]
+    body += ["    return g2()"]
+    return body
+
+
+def same_name_programs():
+    ind = lambda ls, n=1: ["    " * n + l for l in ls]
+    for link in SAME_LINKS:
+        for write in (False, True):
+            for ro in (False, True):
+                for ri in (False, True):
+                    name = "step"
+                    inner = _same_inner(name, write, ri)
+                    if link == "method":
+                        inner = ["class Cx:"] + ind([("def %s(self_, x2):" % name)] + inner[1:]) + ["r = Cx().%s(3)" % name]
+                        if write:
+                            continue  # nonlocal through a class body is legal; keep the read variant only (smaller universe)
+                    elif link == "mid":
+                        inner = ["def mid():"] + ind(inner + ["return %s(3)" % name]) + ["r = mid()"]
+                    else:
+                        inner = inner + ["r = %s(3)" % name]
+                    outer = ["def %s(x1):" % name, "    t1 = a", "    def g1():", "        nonlocal t1", "        t1 += x1", "        return t1"] + ind(inner)
+                    if ro:
+                        outer += ["    for q1 in [1, 2, 3]:", "        if q1 == b:", "            return ('out', q1, r, g1())", "        log('o', q1)"]
+                    outer += ["    g1()", "    return (t1, r)", "log('s', %s(b))" % name]
+                    yield "C09:nest-samename:%s:%s:%s:%s" % (link, "write" if write else "read", "retloop" if ro else "plain", "retloop" if ri else "plain"), "\n".join(outer) + "\nlog('end')\n"
+    # classes of one name on one chain (class loader / member store helpers)
+    for loop in (False, True):
+        body = ["class Kk:", "    ca = a"]
+        if loop:
+            body += ["    for qa in [1, 2]:", "        ca += qa"]
+        body += ["    def m(self_):", "        class Kk:", "            cb = b"]
+        if loop:
+            body += ["            for qb in [1, 2]:", "                cb += qb"]
+        body += ["            def m(self2):", "                return (self2.cb, self_.ca)", "        return Kk().m()", "log('k', Kk().m(), Kk.ca)"]
+        yield "C09:nest-samename:class:%s" % ("loop" if loop else "plain"), "\n".join(body) + "\nlog('end')\n"
 
 
 def suffix_provenance(ol, src, configs):
